@@ -4,7 +4,7 @@ from concurrent.futures import ThreadPoolExecutor
 import vlib
 
 MANIFEST = dict(
-    level=("proof", "Fourteen Coq theorems (closed under the global context) over executable models of hkdf.c, "
+    level=("proof", "Fifteen Coq theorems (closed under the global context) over executable models of hkdf.c, "
            "mungekey/conf.c+key.c and munged/conf.c create_subkeys: hkdf.c's extract/expand loop (uint8 counter, MIN "
            "copy, 255-round stop, absent salt) equals an independent RFC 5869 transcription for every hmac with fixed "
            "positive output length, key, salt, info and L <= 255*HashLen with exactly L bytes out (and returns 255 "
